@@ -7,6 +7,7 @@ from . import dirty as D
 from . import runloop as RL
 from . import accessors as ACC
 from . import C19 as R19
+from . import dblog as DB
 
 EXPLANATION = (
     "Static conformance of `nothing outside the declared categories can dirty a step` on rustc MIR of the current tree: (dirty-only-if) every Ok(true) of "
@@ -112,6 +113,8 @@ def run(ck, ctx):
     R19.summary(ck, ctx)
     R19.tasks_run(ck, ctx)
     D.hashes_frozen(ck, ctx)
+    # what a fresh process compares against is what was recorded: the last accepted record's deps list and hash both reach the graph
+    DB.attribution(ck, ctx, rule="loaded-as-recorded")
 
 
 def run_config(ck, ctx):
